@@ -20,11 +20,11 @@ type c09Problem struct {
 	Msg    string
 	Class  string
 	// for bounds/linecol problems: the offending position
-	Off              int  `json:"off,omitempty"`
-	GotLine, GotCol  uint `json:"-"`
+	Off               int  `json:"off,omitempty"`
+	GotLine, GotCol   uint `json:"-"`
 	WantLine, WantCol uint `json:"-"`
-	fr               *c09Frame
-	stored           bool // a stored field rather than a computed Pos()/End()
+	fr                *c09Frame
+	stored            bool // a stored field rather than a computed Pos()/End()
 }
 
 // c09Frame is one node on the walker's stack.
@@ -209,12 +209,12 @@ type c09Checker struct {
 	problems []c09Problem
 	// counters
 	nodes, positions, tokens, literals, stmtLists, contained int
-	endTokens                                                 int
-	skippedPrefix                                             int
-	degradedHdocLit, hdocLastLits, hdocEndExempt              int
-	hdocs                                                     []c09Hdoc
-	commentExempt                                             int
-	hdocExempt                                                int
+	endTokens                                                int
+	skippedPrefix                                            int
+	degradedHdocLit, hdocLastLits, hdocEndExempt             int
+	hdocs                                                    []c09Hdoc
+	commentExempt                                            int
+	hdocExempt                                               int
 }
 
 func (k *c09Checker) add(clause string, fr *c09Frame, field, format string, args ...any) {
@@ -329,7 +329,7 @@ func (k *c09Checker) file(f *syntax.File) {
 // the CallExpr, the Stmt and the File around it).
 func (k *c09Checker) dedupe() {
 	type pv struct {
-		off        int
+		off       int
 		line, col uint
 	}
 	best := map[pv]int{}
